@@ -533,3 +533,56 @@ pub(crate) struct MarketPriceOptions {
     pub(crate) allow_long_closed: bool,
     pub(crate) allow_short_closed: bool,
 }
+
+/// Verification hooks (visibility shims only).
+#[cfg(gmsol_verif)]
+pub mod verif {
+    use super::*;
+
+    /// See `try_adjust_price_with_max_deviation_factor`.
+    pub fn try_adjust_price(
+        factor: &u128,
+        price: &gmsol_utils::Price,
+        ref_price: Option<&Decimal>,
+    ) -> Option<gmsol_utils::Price> {
+        super::try_adjust_price_with_max_deviation_factor(factor, price, ref_price)
+    }
+
+    /// See `PriceValidator::validate_one`.
+    #[allow(clippy::too_many_arguments)]
+    pub fn validate_one(
+        validator: &mut PriceValidator,
+        token_config: &TokenConfig,
+        provider: &PriceProviderKind,
+        oracle_ts: i64,
+        oracle_slot: u64,
+        price: &gmsol_utils::Price,
+        ref_price: Option<&Decimal>,
+    ) -> Result<()> {
+        validator.validate_one(token_config, provider, oracle_ts, oracle_slot, price, ref_price)
+    }
+
+    /// See `PriceValidator::finish`.
+    pub fn finish(validator: PriceValidator) -> Result<Option<(u64, i64, i64)>> {
+        validator.finish()
+    }
+
+    /// See `SmallPrices::from_price`.
+    pub fn small_prices(
+        price: &gmsol_utils::Price,
+        is_synthetic: bool,
+        is_open: bool,
+    ) -> Result<price_map::SmallPrices> {
+        price_map::SmallPrices::from_price(price, is_synthetic, is_open)
+    }
+
+    /// See `PriceFeed::update`.
+    pub fn feed_update(
+        feed: &mut PriceFeed,
+        price: &PriceFeedPrice,
+        max_future_excess: u64,
+        idempotent: bool,
+    ) -> Result<bool> {
+        feed.update(price, max_future_excess, idempotent)
+    }
+}
